@@ -197,7 +197,40 @@ def r19_5(ctx):
            "html5ever encoding.rs extract_a_character_encoding_from_a_meta_element")
 
 
+def r19_6(ctx):
+    """the meta content scanner works on BYTES: every sub-slice of its input that is compared or searched is taken through
+    as_bytes() (byte offsets computed by the scan are not, in general, character boundaries of the string: a str slice at such an
+    offset is None / panics, and the declaration after a non-ASCII character would be missed)"""
+    from lib.ast import walk
+    its = [x for x in ctx.ast.walkable("html5ever") if x["k"] == "Fn" and x["name"] == "extract_a_character_encoding_from_a_meta_element" and x.get("body") is not None]
+    if len(its) != 1:
+        raise AnchorMissing("extract_a_character_encoding_from_a_meta_element not found")
+    pname = [p["pat"]["name"] for p in its[0]["sig"]["params"] if p.get("pat", {}).get("k") == "PIdent"][0]
+    bad = []
+    n = [0]
+
+    def is_input(e):
+        while isinstance(e, dict) and e.get("k") in ("Ref", "Paren", "Unary"):
+            e = e["e"]
+        return isinstance(e, dict) and e.get("k") == "Path" and e["path"] == pname
+
+    def f(node):
+        k = node.get("k")
+        if k == "MethodCall" and node["m"] == "as_bytes" and is_input(node["recv"]):
+            n[0] += 1
+        if k == "MethodCall" and node["m"] in ("get", "get_unchecked", "find", "split_at", "char_indices", "chars", "strip_prefix", "starts_with", "trim_start", "trim_start_matches") and is_input(node["recv"]):
+            bad.append("%s.%s(..)" % (pname, node["m"]))
+        if k == "Index" and is_input(node["e"]) and node["i"].get("k") == "Range":
+            bad.append("%s[range]" % pname)
+    walk(its[0]["body"], f)
+    ctx.ob("R19.6", "meta-content-is-scanned-as-bytes", not bad and n[0] >= 3, "the input is examined only through as_bytes() (%d sites) and cut only by subtendril at offsets the scan established" % n[0] if not bad and n[0] >= 3 else
+           "the scanner slices / searches its input as a string (%s): at a byte offset that is not a character boundary that is None or a panic, so a charset declaration after a non-ASCII character is not found" % sorted(set(bad)),
+           "html5ever encoding.rs extract_a_character_encoding_from_a_meta_element")
+
+
 def run(ctx):
+    ctx.rule("R19.6", "the meta content scanner examines its input as bytes only")
+    ctx.guard("R19.6", "bytes", lambda: r19_6(ctx))
     ctx.rule("R19.5", "the byte sets of the meta charset scanner (whitespace skipping, end of an unquoted value) are the standard's")
     ctx.guard("R19.5", "scanner-sets", lambda: r19_5(ctx))
     ctx.rule("R19.1", "EncodingIndicator is constructed only in InHead, only for start tag meta, after insertion; charset first, else http-equiv=content-type + extraction from content")
